@@ -9,7 +9,9 @@ import (
 
 	"pgregory.net/rapid"
 
+	js "github.com/jsightapi/jsight-schema-go-library/notations/jschema"
 	"verif/gen"
+
 	"verif/lib"
 	"verif/ref"
 	"verif/run"
@@ -50,6 +52,8 @@ var atoms = []ref.RuleAtom{
 	{Name: "precision"}, {Name: "minLength"}, {Name: "maxLength"}, {Name: "maxLength", Variant: "disordered"}, {Name: "regex"}, {Name: "regex", Variant: "escaped"},
 	{Name: "minItems"}, {Name: "maxItems"}, {Name: "maxItems", Variant: "disordered"},
 	{Name: "additionalProperties"}, {Name: "allOf"}, {Name: "allOf", Variant: "empty-parent"}, {Name: "enum"}, {Name: "or"}, {Name: "or", Variant: "disordered-set"}, {Name: "or", Variant: "ordered-set"}, {Name: "or", Variant: "format-with-length-set"}, {Name: "or", Variant: "ref-nullable-set"}, {Name: "or", Variant: "ref-optional-set"},
+	{Name: "or", Variant: "exclusive-empty-set"}, {Name: "or", Variant: "exclusive-ok-set"}, {Name: "or", Variant: "foreign-kind-set"}, {Name: "or", Variant: "huge-length-set"},
+	{Name: "minLength", Variant: "huge"}, {Name: "minItems", Variant: "huge"}, {Name: "precision", Variant: "huge"},
 	{Name: "type", Variant: "kind"}, {Name: "type", Variant: "any"}, {Name: "type", Variant: "ref"}, {Name: "type", Variant: "decimal"}, {Name: "type", Variant: "date"},
 	{Name: "optional", Variant: "true"}, {Name: "optional", Variant: "false"}, {Name: "nullable", Variant: "true"}, {Name: "nullable", Variant: "false"},
 	{Name: "const", Variant: "true"}, {Name: "const", Variant: "false"}, {Name: "foo"},
@@ -135,8 +139,14 @@ func build(c Case) (*ref.SNode, []ref.RuleAtom, bool) {
 			r.Tok = a.Variant
 		case "precision":
 			r.Tok = "2"
+			if a.Variant == "huge" {
+				r.Tok = "18446744073709551617" // 2^64+1: as precision 1 it would exclude the example 5.5? no - it must not be read as 1 at all
+			}
 		case "minLength":
 			r.Tok = "1"
+			if a.Variant == "huge" {
+				r.Tok = "18446744073709551616" // 2^64: no string is that long, and it is above every maxLength
+			}
 		case "maxLength":
 			r.Tok = "12"
 			if a.Variant == "disordered" {
@@ -149,6 +159,9 @@ func build(c Case) (*ref.SNode, []ref.RuleAtom, bool) {
 			}
 		case "minItems":
 			r.Tok = "1"
+			if a.Variant == "huge" {
+				r.Tok = "18446744073709551617"
+			}
 		case "maxItems":
 			r.Tok = "5"
 			if a.Variant == "disordered" {
@@ -196,6 +209,22 @@ func build(c Case) (*ref.SNode, []ref.RuleAtom, bool) {
 				r.Or = []ref.OrItem{{Rules: []ref.SRule{gen.StrRule("type", "@tinteger"), gen.BoolRule("optional", true)}}, {Rules: []ref.SRule{gen.StrRule("type", kn)}}}
 			case "format-with-length-set": // an alternative rule set that puts a length rule next to a format type
 				r.Or = []ref.OrItem{{Rules: []ref.SRule{gen.StrRule("type", "email"), gen.TokRule("minLength", "3")}}, {Rules: []ref.SRule{gen.StrRule("type", kn)}}}
+			case "exclusive-empty-set": // min == max with an exclusive flag: the interval is empty
+				flag := gen.BoolRule("exclusiveMinimum", true)
+				if c.Kind == ref.NKString {
+					flag = gen.BoolRule("exclusiveMaximum", true)
+				}
+				r.Or = []ref.OrItem{{Rules: []ref.SRule{gen.StrRule("type", "integer"), gen.TokRule("min", "1"), flag, gen.TokRule("max", "1")}}, {Rules: []ref.SRule{gen.StrRule("type", kn)}}}
+			case "exclusive-ok-set":
+				r.Or = []ref.OrItem{{Rules: []ref.SRule{gen.TokRule("max", "2"), gen.StrRule("type", "integer"), gen.TokRule("min", "1"), gen.BoolRule("exclusiveMinimum", true)}}, {Rules: []ref.SRule{gen.StrRule("type", kn)}}}
+			case "foreign-kind-set": // a rule that does not apply to the kind the rule set declares
+				bad := []ref.SRule{gen.StrRule("type", "integer"), gen.TokRule("minLength", "1")}
+				if c.Kind == ref.NKInteger || c.Kind == ref.NKFloat {
+					bad = []ref.SRule{gen.TokRule("min", "1"), gen.StrRule("type", "string")}
+				}
+				r.Or = []ref.OrItem{{Rules: bad}, {Rules: []ref.SRule{gen.StrRule("type", kn)}}}
+			case "huge-length-set": // 2^64 as a length bound: above every maxLength
+				r.Or = []ref.OrItem{{Rules: []ref.SRule{gen.StrRule("type", "string"), gen.TokRule("minLength", "18446744073709551616"), gen.TokRule("maxLength", "5")}}, {Rules: []ref.SRule{gen.StrRule("type", kn)}}}
 			case "ordered-set":
 				pair := []ref.SRule{gen.TokRule("min", "1"), gen.TokRule("max", "5")}
 				if c.Kind == ref.NKInteger || c.Kind == ref.NKFloat {
@@ -477,6 +506,87 @@ func TestRandomLargerSets(t *testing.T) {
 		} else {
 			run.Label("order-independence-only")
 		}
+	})
+}
+
+// A type added after the schema has been used: either AddType refuses it, or Check's next verdict
+// is about the schema including that type. A verdict frozen at the first call while AddType keeps
+// reporting success would make "Check succeeds iff every rule applies" false.
+const chkLate = "type-added-after-first-use"
+
+type LateCase struct {
+	Root  string `json:"root"`
+	First string `json:"first_use"` // check | ast | example | validate | len
+	Name  string `json:"type_name"`
+	Type  string `json:"type_text"`
+	Valid bool   `json:"type_is_valid"`
+}
+
+func init() {
+	run.RegisterReplay(chkLate, func(t run.TB, raw json.RawMessage) {
+		var c LateCase
+		if err := json.Unmarshal(raw, &c); err != nil {
+			t.Fatalf("bad case: %v", err)
+		}
+		checkLate(t, c)
+	})
+}
+
+func checkLate(t run.TB, c LateCase) {
+	// the reference: the same objects, the type added before the first use
+	early := js.New("root", c.Root)
+	addEarly := lib.Safe(func() error { return early.AddType(c.Name, js.New(c.Name, c.Type)) })
+	want := lib.Check(early)
+	if !addEarly.OK {
+		want = addEarly
+	}
+	late := js.New("root", c.Root)
+	switch c.First {
+	case "check":
+		lib.Check(late)
+	case "ast":
+		lib.AST(late)
+	case "example":
+		lib.Example(late)
+	case "validate":
+		lib.Validate(late, []byte("1"))
+	case "len":
+		lib.Safe(func() error { _, err := late.Len(); return err })
+	}
+	add := lib.Safe(func() error { return late.AddType(c.Name, js.New(c.Name, c.Type)) })
+	if add.Panic != "" {
+		run.Fail(t, chkLate, c, "AddType after %s panicked: %s", c.First, add.Panic)
+	}
+	if !add.OK {
+		return // refused: the caller knows the type is not part of the schema
+	}
+	got := lib.Check(late)
+	if got.OK != want.OK {
+		run.Fail(t, chkLate, c, "AddType after %s reports success, but Check then says %v; with the type added first it says %v", c.First, got, want)
+	}
+}
+
+func TestLateAddType(t *testing.T) {
+	run.SkipIfReplaying(t)
+	defer run.Done(t, chkLate)
+	rapid.Check(t, func(t *rapid.T) {
+		c := LateCase{First: rapid.SampledFrom([]string{"check", "check", "ast", "example", "validate", "len"}).Draw(t, "first")}
+		uses := rapid.Bool().Draw(t, "rootUsesType")
+		c.Name = "@late"
+		c.Root = rapid.SampledFrom([]string{"{\n  \"id\": 1\n}", "[1, 2]", "\"s\" // {minLength: 1}"}).Draw(t, "root")
+		if uses {
+			c.Root = rapid.SampledFrom([]string{"{\n  \"id\": @late\n}", "@late", "[@late]", "1 // {type: \"@late\"}"}).Draw(t, "rootWithRef")
+		}
+		c.Valid = rapid.Bool().Draw(t, "valid")
+		if c.Valid {
+			c.Type = rapid.SampledFrom([]string{"1 // {min: 0}", "\"x\"", "{\n  \"k\": true\n}"}).Draw(t, "type")
+		} else {
+			c.Type = rapid.SampledFrom([]string{"\"x\" // {min: 1}", "1 // {minLength: 2}", "5 // {max: 1}", "{ // {minItems: 1}\n  \"k\": 1\n}", "1 // {foo: 1}"}).Draw(t, "badType")
+		}
+		checkLate(t, c)
+		run.Eval(chkLate, true, c.Root, c.First, c.Type)
+		run.Label("late-type:first-use-" + c.First)
+		run.Sample(chkLate, c)
 	})
 }
 
